@@ -500,6 +500,13 @@ fn program<D: SimData>(mode: HostMode, src: &str, input: &Val, script: &HostScri
         }
     };
     d.host_mut().recording = true;
+    // SimpleGarnishData: a third of the programs run on a working copy of the store they were built into
+    if !D::IS_BASIC && crate::rng::hash_str(src) % 3 == 0 {
+        if let Some(Ok(copy)) = d.working_copy() {
+            d = copy;
+            out.probe("run-on-working-copy-of-the-store");
+        }
+    }
     if start(&mut d, built.entry_jump, input).is_err() {
         out.abstain = Some("start-failed".into());
         return;
